@@ -19,6 +19,7 @@ import NeoModel.Proofs.FeesRelevant
 import NeoModel.Proofs.FeesNative
 import NeoModel.Proofs.FeesFields
 import NeoModel.Proofs.FeesFrame
+import NeoModel.Proofs.FeesSolvent
 namespace NeoModel.C07
 open NeoModel NeoModel.Fees NeoModel.Admission
 open NeoModel.Generated.FeeConsts
@@ -769,5 +770,75 @@ theorem standard_witness_state_independent (c c' : Chain) (gas : Nat) (hashOk : 
 example : verifyOne { exChain with height := 500, lookup := fun _ => .tx } 1000000 (.std true (emitBytes exSig) (sigScript exKey))
     = verifyOne exChain 1000000 (.std true (emitBytes exSig) (sigScript exKey)) :=
   standard_witness_state_independent _ _ _ _ _ _ rfl rfl rfl rfl rfl
+
+end NeoModel.C07
+
+namespace NeoModel.C07
+open NeoModel NeoModel.Fees NeoModel.Admission NeoModel.Pack
+open NeoModel.Generated.FeeConsts
+open NeoModel.Wire (varUintSize)
+
+/-! ## 9. the pool's consistency is an invariant -/
+
+/-- **pool_add_keeps_consistent.** If `mempool.Add` (on a pool below its capacity) accepts `t` into a consistent pool —
+every transaction once, no two tied by a Conflicts attribute, one response per oracle request, every payer's system +
+network fees within its balance or Notary deposit — then the pool afterwards (the transactions `t` conflicts with and a
+cheaper response to the same request removed, `t` added) is consistent again. The discount of step 3 of
+`checkTxConflicts` is sound because only transactions of the same payer are discounted and each of them is removed.
+`HashSane`: what a collision-free hash and `verifyTxAttributes` guarantee (no self / mutual naming, no duplicate
+Conflicts attribute). -/
+theorem pool_add_keeps_consistent (n : Nat) (bal : Nat × Nat → Nat) (sp : List Tx) (t : Tx)
+    (hc : Consistent n bal sp) (hs : HashSane sp t) (h : (scratchAdd n bal sp t).1 = none) :
+    Consistent n bal (scratchAdd n bal sp t).2 :=
+  scratchAdd_consistent n bal sp t hc hs h
+
+/-- the third field of `HashSane` is what the attribute check of the admission establishes. -/
+theorem admitted_conflicts_distinct (c : Chain) (t : Tx) (h : verifyAttrs c t = true) : (conflictHashes t).Nodup :=
+  conflictHashes_nodup c t h
+
+/-- **pool_consistency_invariant.** Every pool reachable between two blocks — from the empty pool by accepted
+additions, removals of any kind and reordering — is consistent. -/
+theorem pool_consistency_invariant {n : Nat} {bal : Nat × Nat → Nat} {sp : List Tx} (h : Built n bal sp) :
+    Consistent n bal sp := built_consistent h
+
+/-- **packing_valid_reachable.** `packing_valid_partial` for every reachable pool: the consistency hypothesis is
+discharged by the invariant. What remains assumed is that every pooled transaction is admissible on the current state
+(`stillRelevant_sound`) and a configuration without wrap-around. -/
+theorem packing_valid_reachable (c : Chain) (bal : Nat × Nat → Nat) (cfg : Cfg) (pool : List Tx) (inMain : Nat → Bool)
+    (inv ver : Bytes)
+    (hs : Sane cfg) (hfee : cfg.maxBlockSysFee = c.maxBlockSysFee)
+    (hwit : (encodeWitness inv ver).length = (encodeWitness cfg.inv cfg.ver).length)
+    (hb : Built c.notary bal pool)
+    (hadm : ∀ t ∈ pool, admit c (freePool t) t = none)
+    (hne : pick cfg pool ≠ [] ∨ expectedSizeWithoutTx cfg.stateRoot inv ver 0 ≤ cfg.maxBlockSize) :
+    pick cfg pool <+: pool
+    ∧ verifyBlock c bal inMain cfg.maxBlockSize cfg.stateRoot inv ver (pick cfg pool) = none
+    ∧ ledgerLoop c bal inMain 0 [] (pick cfg pool) = none := by
+  have h := packing_valid_partial c bal cfg pool inMain inv ver hs hfee hwit (built_consistent hb) hadm
+  exact ⟨h.1, h.2.2.2.2.2 hne⟩
+
+/-! non-vacuity: the example pool is reachable; and a replacement through a Conflicts attribute between
+transactions of different senders at the edge of the balance (the scenario of seeded change C07-m5). -/
+
+def sT (h : Nat) (accs : List Nat) (net : Nat) (cf : List Nat) : Tx :=
+  { hash := h, version := 0, scriptLen := 1, scriptOk := true, sysFee := 0, netFee := net, validUntil := 20, size := 100,
+    signers := accs.map fun a => ⟨a, false, .missing⟩, attrs := cf.map Attr.conflicts }
+
+/-- A = account 10 with balance 100, B = account 11. a1 (A, 60), e (sent by B, co-signed by A, 30), a2 (A, 41, names e):
+60 + 41 > 100, and e's fees are not A's, so a2 is refused — although 60 + 41 − 30 ≤ 100. -/
+example : (scratchAdd 2 (fun q => if q = (10, 0) then 100 else 1000) [sT 1 [10] 60 [], sT 2 [11, 10] 30 []] (sT 3 [10] 41 [2])).1
+    = some .poolConflict := by decide
+
+/-- with 40 it is admitted, e is evicted, and the pool stays consistent by the theorem. -/
+example : Consistent 2 (fun q => if q = (10, 0) then 100 else 1000)
+    (scratchAdd 2 (fun q => if q = (10, 0) then 100 else 1000) [sT 1 [10] 60 [], sT 2 [11, 10] 30 []] (sT 3 [10] 40 [2])).2 := by
+  apply pool_consistency_invariant
+  have b0 : Built 2 (fun q => if q = (10, 0) then 100 else 1000) [] := Built.empty
+  have b1 := Built.add [] (sT 1 [10] 60 []) b0 ⟨by decide, by simp, by decide⟩ (by decide)
+  have b2 := Built.add _ (sT 2 [11, 10] 30 []) b1 ⟨by decide, by decide, by decide⟩ (by decide)
+  exact Built.add _ (sT 3 [10] 40 [2]) b2 ⟨by decide, by decide, by decide⟩ (by decide)
+
+example : ((scratchAdd 2 (fun q => if q = (10, 0) then 100 else 1000) [sT 1 [10] 60 [], sT 2 [11, 10] 30 []] (sT 3 [10] 40 [2])).2.map (·.hash)) = [1, 3] := by
+  decide
 
 end NeoModel.C07
